@@ -139,6 +139,7 @@ def check(ctx):
     regime_cover(ctx, s, dates)
     sibling_paths(ctx, s, dates)
     both_regions(ctx, s, dates)
+    shares_sum(ctx, s, dates)
     from ._siblings import capped_multiplier_findings
 
     ctx.rule("S-cap", "the regular and the transition-zone copy of a contribution formula scale a rate parameter by the identical capped expression (otherwise the two regimes do not meet at the zone boundary)")
@@ -424,3 +425,50 @@ def both_regions(ctx, s, dates):
                     only = next(iter(ss))
                     ctx.violation("OW", f"{node.rule.qual}|{'/'.join(parent)}|{only}", node.rule.where, f"at {d} {node.rule.name} reads only the `{only}` value of {'.'.join(parent)} although east and west differ ({v['ost']} vs {v['west']}): the {'western' if only == 'west' else 'eastern'} value is applied to residents of both regions")
     ctx.ob("OW", ok=True, distinct="rules scanned", n=max(nrules, 1))
+
+
+def shares_sum(ctx, s, dates):
+    """S-sum: "within the transition zone employee and employer shares sum to the total contribution" holds by
+    construction when, at every date, one of the two shares of a branch is *defined* as total - other share."""
+    import ast
+
+    from staticlib.ordersem import NotExpressible, function_as_expression
+
+    ctx.rule("S-sum", "at every date and for each insurance branch one transition-zone share is defined as the branch's total minus the other share (the two shares add up to the total by construction)")
+    branches = ["ges_rentenv", "arbeitsl_v", "ges_krankenv", "ges_pflegev"]
+    seen = set()
+    for d in dates:
+        dag = s.dag(d)
+        for b in branches:
+            an, ag, tot = f"_{b}_beitr_midijob_arbeitnehmer_m", f"_{b}_beitr_midijob_arbeitgeber_m", f"_{b}_beitr_midijob_sum_arbeitnehmer_arbeitgeber_m"
+            nodes = {k: dag.nodes.get(k) for k in (an, ag, tot)}
+            if any(v is None or v.kind != "rule" for v in nodes.values()):
+                if all(v is None for v in nodes.values()):
+                    continue
+                raise AnalysisError(f"S-sum: the transition-zone nodes of {b} at {d} are not three rules ({ {k: (v.kind if v else None) for k, v in nodes.items()} }); needs a re-read")
+            ok = False
+            for me, other in ((an, ag), (ag, an)):
+                try:
+                    e = function_as_expression(nodes[me].rule.node)
+                except NotExpressible:
+                    continue
+                def is_res(x):
+                    return isinstance(x, ast.BinOp) and isinstance(x.op, ast.Sub) and isinstance(x.left, ast.Name) and x.left.id == tot and isinstance(x.right, ast.Name) and x.right.id == other
+
+                def shape(x):
+                    # the residuum itself, or a selection between it and the constant 0 (outside the zone)
+                    if is_res(x):
+                        return True
+                    if isinstance(x, ast.IfExp):
+                        parts = [x.body, x.orelse]
+                        return any(shape(p_) for p_ in parts) and all(shape(p_) or (isinstance(p_, ast.Constant) and p_.value in (0, 0.0)) for p_ in parts)
+                    return False
+
+                if shape(e):
+                    ok = True
+            ctx.ob("S-sum", ok=ok, distinct=(b, nodes[an].rule.qual, nodes[ag].rule.qual))
+            key = (b, nodes[an].rule.qual, nodes[ag].rule.qual)
+            if not ok and key not in seen:
+                seen.add(key)
+                ctx.violation("S-sum", f"{b}|{nodes[an].rule.name}|{nodes[ag].rule.name}", nodes[an].rule.where, f"at {d} neither {an} nor {ag} is `{tot} - <the other share>`: both shares are computed independently, nothing makes them add up to the total contribution in the transition zone")
+    ctx.floor("S-sum", 8)
